@@ -93,7 +93,7 @@ class Twin:
 
 
 AGGREGATIONS = {"all", "any", "sum", "reduce", "min", "max", "list", "tuple", "set", "dict",
-                "sorted", "nlargest", "nsmallest", "apply", "sync"}
+                "sorted", "nlargest", "nsmallest", "apply", "sync", "anext"}
 NO_TWIN = {"any_iter", "await_each", "apply", "sync"}
 SENTINEL_KEY = 2
 NONE_I = -1
@@ -202,6 +202,18 @@ def build_call(L, tool, par, S, F, rec):
             return res
 
         return lambda: L.apply(func, *pos, **kws)
+    if tool == "anext":
+        dflt = () if par["dflt"] == "no" else (None,) if par["dflt"] == "none" else (Node("default"),)
+        if L is Twin:
+            def calls():
+                it = iter(S[0])
+                return [next(it, *dflt) for _ in range(par["n"])]
+            return calls
+
+        async def acalls():
+            it = S[0] if hasattr(S[0], "__anext__") else S[0].__aiter__()
+            return [await L.anext(it, *dflt) for _ in range(par["n"])]
+        return acalls
     if tool == "sync":
         f = L.sync(F("func"))
 
@@ -244,14 +256,17 @@ class Obs:
                 "close_error": self.close_error}
 
 
-NONE_TOOLS = ("zip",)     # tools whose items with key 0 are the object None
+NONE_TOOLS = ("zip", "anext")     # tools whose items with key 0 are the object None
 
 
-def noneify(log):
-    """Expected log with every key-0 item replaced by None (what the real source hands out)."""
+def noneify(log, dflt_none=False):
+    """Expected log with every key-0 item replaced by None (what the real source hands out);
+    dflt_none: the default object of the call is None as well."""
     def conv(v):
         if isinstance(v, dict):
             if set(v) == {"s", "p", "k"} and v["k"] == 0:
+                return None
+            if dflt_none and v == {"f": "default", "a": []}:
                 return None
             return {a: conv(b) for a, b in v.items()}
         if isinstance(v, list):
@@ -359,14 +374,16 @@ def execute(case, L, *, sync=False, flav=None, susp=0, fault_kind="exc", cancel_
         """Record how an exception left the operation."""
         inj = rec.fault_exc if rec.fault_fired else (cancel_exc if o.fault_fired else None)
         o.exc_type = type(exc).__name__
+        if tool == "anext" and type(exc) in (StopIteration, StopAsyncIteration):
+            o.exc_type = "Stop"        # the end of iteration, in the vocabulary of either protocol
         if inj is not None:
             o.exc_same = exc is inj
             o.ending = "cancel" if (cancel_exc is not None and o.fault_fired) else "fault"
             if not o.exc_same:
-                rec.ev(ev="raise", x=type(exc).__name__)
+                rec.ev(ev="raise", x=o.exc_type)
         else:
             o.ending = "raise"
-            rec.ev(ev="raise", x=type(exc).__name__)
+            rec.ev(ev="raise", x=o.exc_type)
 
     thunk = build_call(L, tool, par, S, F, rec)
     nnext = case["nnext"]
